@@ -1,5 +1,6 @@
 """Layout properties: C06 (layout independence), C08 (canonical whitespace), C09 (line endings),
 C10 (indentation settings), C11 (wrap_column is a limit) — structural clauses."""
+import re
 from facts import norm, Origins, _rv_operands
 from progress import dominating_variant_facts, bfs_path, bfs_cycle
 from table import Table, TooComplex, render, canon_place
@@ -107,11 +108,11 @@ def check_c06(prog, rep, tier, cfg):
         inventory(rep, R, "readers of %s.ws_len" % short(adt), r, TOKEN_IMPLS + ["<pasfmt_core::lang::Token as core::convert::From>::from"], "only the accessor impls split text into whitespace/content")
     nl = readers(prog, FD, "newlines_before")
     inventory(rep, R, "readers of FormattingData.newlines_before", nl,
-              [OLF + "InternalOptimisingLineFormatter::reconstruct_solution", ZERO_FN, RCL, TS + "max_one_either_side::{closure#0}"] + CURSOR_BODIES,
+              [OLF + "InternalOptimisingLineFormatter::reconstruct_solution", ZERO_FN, RCL, TS + "max_one_either_side::{closure#0}", TS + "max_one_either_side::{closure#1}"] + CURSOR_BODIES,
               "original newline counts may only be read for the blank-line clamp, line-start space removal (after the wrapper wrote them), emission, and the separated-or-not test of max_one_either_side")
     sp = readers(prog, FD, "spaces_before")
     inventory(rep, R, "readers of FormattingData.spaces_before", sp,
-              [OLF_FMT + "::{closure#0}", RCL, TS + "max_one_either_side::{closure#0}"] + CURSOR_BODIES,
+              [OLF_FMT + "::{closure#0}", RCL, TS + "max_one_either_side::{closure#0}", TS + "max_one_either_side::{closure#1}"] + CURSOR_BODIES,
               "original spacing may only be read by max_one_either_side (0-vs-some between literal-like tokens), the length table and emission")
     # the one place where the original newline count influences the result: clamp(1,2) on the first token of a line
     rs = prog.body(OLF + "InternalOptimisingLineFormatter::reconstruct_solution")
@@ -178,23 +179,100 @@ def check_c06(prog, rep, tier, cfg):
 
     gap_coverage(prog, rep, "C06.c")
     original_ws_only_for_ignored(prog, rep, "C06.e")
-    # ---------------------------------------------------------------- C06.d the only reader of the input's blank count asks `separated or not`, and a line break counts as separation
+    line_type_does_not_leak(prog, rep, "C06.f")
+    # ---------------------------------------------------------------- C06.d where the spacing rule looks at a gap that is still as in the input, a line break counts as separation
     R = "C06.d"
     n = 0
     for b2 in prog.bodies.values():
-        if not b2.npath.startswith(TS):
+        if not b2.npath.startswith(TS) or b2.kind == "Closure":
             continue
-        rd = [a for a in prog.field_accesses(FD, "spaces_before", within={b2.npath}) if a[3] in ("read", "ref")]
-        if not rd:
-            continue
-        n += 1
-        ret = canon(b2, {"k": "copy", "place": {"l": 0, "p": []}})
-        base = [x for x in (ret.replace("(", ",").replace(")", ",").split(",")) if x.endswith(".spaces_before")]
-        ok = bool(base) and all(x[:-len("spaces_before")] + "newlines_before" in ret for x in base) and ret.startswith("min(") and ret.endswith(",1)")
-        rep.check(ok, R, "separation:" + short(b2.npath),
-                  "%s derives a space decision from the input's blank count alone (%s): after an input line break that count is the next line's indentation, so `a⏎b` (b at column 0) and `a b` format differently" % (short(b2.npath), ret),
-                  where="%s:%d" % (b2.file, b2.line), instance={"body": short(b2.npath), "value": ret})
-    rep.floor(R, "readers of the input's blank count in the spacing rule", n, 1)
+        # element-wise readers: `get_formatting_data(tokens, IDX).map(closure)` — IDX = own index: the value was decided by the previous
+        # token's rule (or belongs to a line start, zeroed later); IDX = own index + 1: the gap is still raw
+        for c in b2.calls():
+            if c.callee != "core::option::Option::map":
+                continue
+            src = canon(b2, c.args[0])
+            m = re.match(r"^get_formatting_data\((\w+),(.+)\)$", src)
+            if not m:
+                continue
+            clos = b2.locals[c.args[1]["place"]["l"]].get("closure") if c.args[1]["k"] in ("copy", "move") else None
+            cb = prog.body(norm(clos)) if clos else None
+            if cb is None or not [a for a in prog.field_accesses(FD, "spaces_before", within={cb.npath}) if a[3] in ("read", "ref")]:
+                continue
+            n += 1
+            ret = canon(cb, {"k": "copy", "place": {"l": 0, "p": []}})
+            raw = m.group(2).startswith("Add(") and m.group(2).endswith(",1)")
+            if raw:
+                ok = "arg2.spaces_before" in ret and "arg2.newlines_before" in ret and ret.startswith("min(") and ret.endswith(",1)")
+            else:
+                # the token's own gap holds what the previous token's rule decided: re-deriving it from the input's line breaks would undo a
+                # decided 0 (`Foo(⏎'abc')` -> `Foo( 'abc')`)
+                ok = ret in ("min(arg2.spaces_before,1)",)
+            rep.check(ok, R, "separation:%s:%s" % (short(b2.npath), "next" if raw else "own"),
+                      "%s derives the space %s from %s — for a gap that is still as in the input, the blank count alone is the next line's indentation after a line break, so `a⏎b` (b at column 0) and `a b` format differently"
+                      % (short(b2.npath), "after the token (raw gap of the next token)" if raw else "before the token", ret),
+                      where="%s:%d" % (cb.file, cb.line), instance={"body": short(cb.npath), "gap": "next token (raw)" if raw else "own (decided by the previous rule)", "value": ret})
+    readers_ts = sorted({a[0].npath for a in prog.field_accesses(FD, "spaces_before") if a[3] in ("read", "ref") and a[0].npath.startswith(TS)})
+    rep.check(all("max_one_either_side::{closure" in r for r in readers_ts), R, "raw-blank-count-readers", "the input's blank count is read in the spacing rule outside max_one_either_side's element closures: %s" % [short(r) for r in readers_ts],
+              instance={"readers": [short(r) for r in readers_ts]})
+    rep.floor(R, "readers of the input's blank count in the spacing rule", n, 2)
+
+
+def line_type_does_not_leak(prog, rep, R):
+    """C06.f — typestate of the parser's current line: whenever finish_logical_line returns, the line that is current from then on has
+    the type Unknown (it is either a freshly pushed line or the still-empty one, reset).  parse_asm_instructions types its line
+    *before* it knows whether the line will hold any token, so a type that survives the 'nothing to finish' exit is inherited by the
+    tokens parsed next — the `end ;` after an asm block becomes an AsmInstruction line, is marked ignored and keeps the input's layout.
+    Must-pass-through: every path entry -> return passes a block that (a) stores LogicalLineType::Unknown into a `.line_type` field,
+    (b) builds a LocalLogicalLine whose line_type is Unknown, (c) calls set_logical_line_type(Unknown), or (d) calls a parser method
+    for which the same holds on every path."""
+    P = "pasfmt_core::defaults::parser::InternalDelphiLogicalLineParser::"
+    LLL = "pasfmt_core::defaults::parser::LocalLogicalLine"
+    b = prog.body(P + "finish_logical_line")
+    if not rep.check(b is not None, R, "anchor:finish_logical_line", "finish_logical_line not found"):
+        return
+
+    def is_unknown(body, op):
+        o = Origins(body).of_operand(op)
+        def one(x):
+            if x[0] == "agg":
+                return str(x[3]).endswith("LogicalLineType::Unknown")
+            if x[0] == "const":
+                return x[1] == "enum_variant" and str(x[2]).endswith("Unknown")
+            return False
+        return bool(o) and all(one(x) for x in o)
+
+    def reset_blocks(body, depth=0):
+        out = set()
+        for bb, i, s2 in body.stmts():
+            if s2["k"] != "assign":
+                continue
+            dp = s2["dst"]["p"]
+            rv = s2["rv"]
+            if dp and dp[-1]["k"] == "field" and dp[-1].get("name") == "line_type" and norm(dp[-1].get("adt", "")) == LLL:
+                if (rv["k"] == "use" and is_unknown(body, rv["op"])) or (rv["k"] == "aggregate" and rv.get("variant") == "Unknown"):
+                    out.add(bb)
+            if rv["k"] == "aggregate" and norm(rv.get("adt", "")) == LLL and "line_type" in rv.get("fields", []):
+                if is_unknown(body, rv["ops"][rv["fields"].index("line_type")]):
+                    out.add(bb)
+        for c in body.calls():
+            tgt = c.target or ""
+            if tgt == P + "set_logical_line_type" and len(c.args) > 1 and is_unknown(body, c.args[1]):
+                out.add(c.bb)
+            elif tgt.startswith(P) and tgt != body.npath and depth < 2 and tgt != P + "set_logical_line_type":
+                cb = prog.body(tgt)
+                if cb is not None and cb.kind != "Closure" and len(list(cb.stmts())) < 400:
+                    rb = reset_blocks(cb, depth + 1)
+                    if rb and not any(cb.can_reach_avoiding(0, {r}, rb) and r not in rb for r in cb.return_blocks()):
+                        out.add(c.bb)
+        return out
+    rb = reset_blocks(b)
+    rets = list(b.return_blocks())
+    bad = [r for r in rets if r not in rb and 0 not in rb and b.can_reach_avoiding(0, {r}, rb)]
+    rep.check(bool(rets) and not bad, R, "current-line-is-Unknown-after-finish",
+              "finish_logical_line can return (bb%s) without the current line's type being Unknown: a type set for a line that turned out empty (parse_asm_instructions types before it parses) is inherited by the tokens parsed next — e.g. the `end ;` closing an asm block becomes an ignored AsmInstruction line and keeps the input's layout"
+              % bad[:3], where="%s:%d" % (b.file, b.line), instance={"returns": len(rets), "reset_blocks": sorted(rb)})
+    rep.floor(R, "blocks of finish_logical_line that make the current line Unknown-typed", len(rb), 2)
 
 
 def original_ws_only_for_ignored(prog, rep, R):
@@ -249,7 +327,7 @@ def gap_coverage(prog, rep, R):
     if not rep.check(so is not None and fmt is not None, R, "anchor:space_operator", "space_operator / TokenSpacing::format not found"):
         return
     try:
-        tb = Table(prog, so)
+        tb = Table(prog, so, inline=1, opaque=("one_space_before", "one_space_either_side", "max_one_either_side", "spaces_before", "spaces_after"))
     except Exception as e:
         rep.fail(R, "space_operator-table", "space_operator is not a loop-free classifier any more: %s" % e)
         return
@@ -696,6 +774,8 @@ def line_comment_trailing_blanks(prog, rep, R):
 
 def check_c08(prog, rep, tier, cfg):
     line_comment_trailing_blanks(prog, rep, "C08.d")
+    # a gap nobody decides keeps the input's blank count: more than one space between two tokens on a line
+    gap_coverage(prog, rep, "C08.e")
     # ---------------------------------------------------------------- C08.a emission order and counter<->string pairing
     R = "C08.a"
     cl = prog.body(RCL)
@@ -1227,6 +1307,42 @@ def check_c10(prog, rep, tier, cfg):
 
 # =========================================================================== C11
 
+def rewrite_is_reported(prog, rep, R):
+    """format_multiline_strings returns a flag that is false initially, is set to true on every path on which a token's text was replaced,
+    and is never reset: otherwise a line whose string changed is not measured and wrapped again."""
+    b = prog.body(OLF + "multiline_strings::StringFormatter::format_multiline_strings")
+    if not rep.check(b is not None, R, "anchor:format_multiline_strings", "format_multiline_strings not found"):
+        return
+    sc = b.calls_to("pasfmt_core::lang::Token::set_content")
+    ret = [d for d in b.defs.get(0, []) if d[0] == "assign"]
+    flag = None
+    for d in ret:
+        rv = d[3]["rv"]
+        if rv["k"] == "use" and rv["op"]["k"] in ("copy", "move") and not rv["op"]["place"]["p"]:
+            flag = rv["op"]["place"]["l"]
+    if not rep.check(len(sc) >= 1 and flag is not None and b.locals[flag]["ty"] == "bool", R, "anchor:rewrite-flag", "format_multiline_strings does not return a bool flag / never calls set_content"):
+        return
+    loops = b.loops()
+    L = set().union(*loops.values()) if loops else set()
+    stores = [d for d in b.defs.get(flag, []) if d[0] == "assign"]
+    init = [d for d in stores if d[1] not in L]
+    inside = [d for d in stores if d[1] in L]
+
+    def cval(d):
+        rv = d[3]["rv"]
+        return rv["op"].get("bool") if rv["k"] == "use" and rv["op"]["k"] == "const" else None
+    ok_init = len(init) == 1 and cval(init[0]) is False
+    ok_sticky = bool(inside) and all(cval(d) is True for d in inside)
+    # every set_content is followed by a `flag = true` before the iteration ends
+    true_blocks = {d[1] for d in inside if cval(d) is True}
+    headers = set(loops)
+    ok_every = all(s.bb in true_blocks or not b.can_reach_avoiding(s.bb, headers | set(b.return_blocks()), true_blocks) for s in sc)
+    rep.check(ok_init and ok_sticky and ok_every, R, "rewrite-flag-is-sticky-and-complete",
+              "the flag returned by format_multiline_strings is not (false initially, set to true after every set_content, never reset): initial %s, stores in the loop %s, set after every rewrite: %s"
+              % ([cval(d) for d in init], [cval(d) for d in inside], ok_every), where="%s:%d" % (b.file, b.line),
+              instance={"flag": b.locals[flag].get("name"), "set_content_sites": len(sc), "stores_in_loop": len(inside)})
+
+
 def check_c11(prog, rep, tier, cfg):
     R = "C11.a"
     inventory(rep, R, "readers of FormattingConfig.wrap_column", readers(prog, FC, "wrap_column"), [CONV_OLF, DOCS, "pasfmt::FormattingConfig::max_line_length"] + SERDE, "wrap_column reaches core only as max_line_length")
@@ -1335,6 +1451,8 @@ def check_c11(prog, rep, tier, cfg):
                           "child lines are then laid out from measurements of the old text, so a line that fits at a narrower wrap_column can exceed a wider one" % ", ".join(memo_fields),
                           where=f.where(), instance={"memo": memo_fields, "reflow_call": "format_line after format_multiline_strings", "cleared_between": not stale})
             rep.floor(R, "wrapping calls after the string rewrite", len(later), 1)
+    # ---------------------------------------------------------------- C11.e the string pass reports every rewrite (the reflow and the length refresh hang on it)
+    rewrite_is_reported(prog, rep, "C11.e")
     # ---------------------------------------------------------------- C11.c what is compared with the limit is the column the text will really occupy
     newline_use_discipline(prog, rep, "C11.c")
     multiline_measure(prog, rep, "C11.c")
